@@ -193,6 +193,11 @@ class WorldT7 : public World
                 {
                     std::size_t first = s0.history().frames.size();
                     EventOutcome eo = s0.run_event(events[e], budget);
+                    if (!eo.completed && eo.budget_exhausted && !eo.threw)
+                    {
+                        rr.count("skipped_step_budget_exhausted");
+                        return rr;
+                    }
                     if (!eo.completed)
                     {
                         rr.violate("C07",
